@@ -135,24 +135,24 @@ def idm_spec(prop, tier):
         if q:
             return (idm_runs((1,), ("basic", "over"), 4) + idm_runs((2,), ("basic", "over1"), 4) + idm_runs((2,), ("over",), 2)
                     + idm_runs((3,), ("basic", "over1"), 2) + idm_runs((4,), ("basic",), 2)
-                    + idm_runs((1, 2), ("churn", "stay"), 2))
+                    + idm_runs((1,), ("churn", "stay"), 3) + idm_runs((2,), ("churn", "stay"), 2))
         return (idm_runs((1,), ("basic", "over", "reuse"), 5, 600, 300) + idm_runs((2,), ("basic", "over1"), 5, 600, 300)
                 + idm_runs((2, 3), ("basic", "over", "reuse"), 3, 600, 300) + idm_runs((4,), ("basic", "over1"), 2, 600, 300)
                 + idm_runs((1, 2), ("churn", "stay"), 4, 900, 900) + idm_runs((3,), ("churn", "stay"), 2, 600, 600))
     if prop == "C14":
         if q:
             return (idm_runs((1, 2), ("over", "reuse", "salted", "pinned"), 3) + idm_runs((3,), ("over1", "reuse1", "salted", "pinned"), 2)
-                    + idm_runs((1, 2), ("churn", "stay"), 2))
+                    + idm_runs((1,), ("churn", "stay"), 3) + idm_runs((2,), ("churn", "stay"), 2))
         return (idm_runs((1, 2, 3), ("over", "reuse", "big", "salted", "pinned"), 3, 600, 300)
                 + idm_runs((4,), ("over1", "reuse1", "salted"), 2, 600, 300)
                 + idm_runs((1, 2), ("churn", "stay"), 3, 900, 900) + idm_runs((3,), ("churn", "stay"), 2, 600, 600))
     if prop == "C15":
         if q:
             return (idm_runs((1, 2), ("basic", "over", "reuse"), 3) + idm_runs((3,), ("basic", "over1", "reuse1"), 2)
-                    + idm_runs((1, 2), ("churn", "stay"), 2)
+                    + idm_runs((1,), ("churn", "stayh"), 3) + idm_runs((2,), ("churn", "stayh"), 2)
                     + [ep(1, ("hb",), 3), ep(2, ("hb",), 2)])
         return (idm_runs((1, 2, 3), ("basic", "over", "reuse", "big"), 3, 600, 300) + idm_runs((4,), ("basic", "reuse1"), 2, 600, 300)
-                + idm_runs((1, 2), ("churn", "stay"), 3, 900, 900)
+                + idm_runs((1, 2), ("churn", "stayh"), 3, 900, 900)
                 + [ep(1, ("hb",), 5, 600, 300), ep(2, ("hb",), 3, 600, 300)])
     return None
 
